@@ -17,7 +17,7 @@ var profiles = map[string][]weighted{
 	"election": {{"apply", 15}, {"tick", 8}, {"isolate", 12}, {"partition", 8}, {"oneway", 5}, {"heal", 12}, {"crash", 6}, {"crashop", 10},
 		{"restart", 10}, {"lossy", 6}, {"transfer", 6}, {"reload", 5}, {"addvoter", 1}, {"demote", 1}, {"remove", 2}, {"cutleader", 4}},
 	"snapshot": {{"apply", 35}, {"tick", 6}, {"lagcompact", 8}, {"stalesuffix", 6}, {"snapshot", 8}, {"crash", 6}, {"crashop", 6}, {"restart", 8},
-		{"isolate", 6}, {"heal", 8}, {"restartall", 2}, {"addvoter", 1}, {"remove", 1}, {"demote", 1}, {"transfer", 2}, {"reload", 2}, {"join", 2}, {"flakyreads", 5}, {"snapcfg", 6}},
+		{"isolate", 6}, {"heal", 8}, {"restartall", 2}, {"addvoter", 1}, {"remove", 1}, {"demote", 1}, {"transfer", 2}, {"reload", 2}, {"join", 2}, {"flakyreads", 5}, {"snapcfg", 6}, {"staleis", 4}},
 	"durability": {{"apply", 30}, {"tick", 6}, {"restartall", 6}, {"crash", 8}, {"restart", 10}, {"crashop", 8}, {"isolate", 8}, {"partition", 8},
 		{"heal", 10}, {"reload", 4}, {"remove", 1}, {"addvoter", 1}, {"demote", 1}, {"stalesuffix", 4}, {"transfer", 2}, {"lossy", 2}, {"cfgrestart", 5}, {"flakyreads", 3}},
 	"commit": {{"apply", 35}, {"tick", 6}, {"cutleader", 8}, {"partition", 8}, {"isolate", 4}, {"heal", 10}, {"addvoter", 2}, {"addnonvoter", 2},
@@ -34,9 +34,9 @@ var profiles = map[string][]weighted{
 		{"restore", 3}, {"transfer", 6}, {"getconfig", 3}, {"shutdown", 8}, {"aftershutdown", 4}, {"isolate", 5}, {"cutleader", 5}, {"heal", 6},
 		{"crash", 2}, {"restart", 5}, {"tick", 8}, {"crashop", 4}, {"inflightfault", 5}},
 	"notify": {{"transfer", 12}, {"cutleader", 8}, {"isolate", 8}, {"heal", 12}, {"remove", 2}, {"demote", 2}, {"apply", 15}, {"slowconsumer", 6},
-		{"tick", 10}, {"crash", 3}, {"restart", 5}, {"reload", 3}},
+		{"tick", 10}, {"crash", 3}, {"restart", 5}, {"reload", 3}, {"staleis", 6}, {"lagcompact", 3}},
 	"restore": {{"restore", 12}, {"apply", 35}, {"tick", 6}, {"addvoter", 2}, {"demote", 2}, {"remove", 2}, {"isolate", 5}, {"lagcompact", 4}, {"heal", 8},
-		{"crash", 3}, {"restart", 4}, {"transfer", 4}, {"snapshot", 3}, {"barrier", 2}},
+		{"crash", 3}, {"restart", 4}, {"transfer", 4}, {"snapshot", 3}, {"barrier", 2}, {"stalesuffix", 6}},
 }
 
 func pick(t *rapid.T, ws []weighted, label string) string {
@@ -138,7 +138,7 @@ func GenShape(t *rapid.T, p *Program) {
 	p.Trailing = oneOf[uint64](t, "trailing", 0, 1, 2, 5, 20, 10240)
 	p.SnapThr = oneOf[uint64](t, "snapThr", 2, 5, 20, 8192)
 	p.SnapIntMs = oneOf(t, "snapInt", 20, 100, 1000)
-	if prof == "snapshot" || prof == "converge" || (prof == "verify" && rapid.Bool().Draw(t, "smallSnapshots")) {
+	if prof == "snapshot" || prof == "converge" || ((prof == "verify" || prof == "notify") && rapid.Bool().Draw(t, "smallSnapshots")) {
 		p.Trailing = oneOf[uint64](t, "trailingS", 0, 1, 2, 5, 20)
 		p.SnapThr = oneOf[uint64](t, "snapThrS", 2, 5, 5, 20)
 		p.SnapIntMs = oneOf(t, "snapIntS", 20, 100)
@@ -202,7 +202,10 @@ func genAction(t *rapid.T, p *Program, ws []weighted) Action {
 	case "stalesuffix":
 		a.N = oneOf(t, "suffix", 1, 2, 5, 12)
 		a.Arg = oneOf(t, "newEntries", 1, 3, 8, 20)
-		a.Set = []int{oneOf(t, "flakyReadsOnReturn", 0, 0, 3, 5)}
+		a.Set = []int{oneOf(t, "flakyReadsOnReturn", 0, 0, 3, 5), 0}
+		if p.Profile == "restore" {
+			a.Set[1] = oneOf(t, "restoreWhere", 0, 1, 2, 3)
+		}
 	case "lagcompact":
 		a.N = oneOf(t, "writes", 3, 6, 12, 30)
 		a.Arg = rapid.IntRange(0, 1).Draw(t, "crashIt")
@@ -217,6 +220,8 @@ func genAction(t *rapid.T, p *Program, ws []weighted) Action {
 	case "inheritedtail":
 		a.N = oneOf(t, "tail", 1, 2, 3, 5)
 		a.Arg = oneOf(t, "fresh", 1, 2, 3)
+	case "staleis":
+		a.N = oneOf(t, "writes", 3, 6, 12)
 	case "inflightfault":
 		a.N = oneOf(t, "inflight", 1, 2, 3, 5)
 		a.Arg = rapid.IntRange(0, 5).Draw(t, "membership")
